@@ -53,8 +53,20 @@ package broker
 //@ func (c *Client) Close()
 //@   requires [client] client_ok(c)
 //@   modifies nclose, tdying[c.tomb]
+// closingobs[c]: how often a function gave up waiting because it observed
+// client c closing (a receive from c.Closing() fired in a select).
+// (the dying channel of a client's own tomb identifies the client: the tomb
+// is a field of the client)
+//@ spec func closingof(c *Client) int = dyingof(c.tomb)
+//@ uninterp func clientof(ch int) *Client
+//@ axiom [closing-owner] forall c *Client {dyingof(c.tomb)} :: clientof(dyingof(c.tomb)) == c
+//@ ghost closingobs map[ref]int
 //@ func (c *Client) Closing() (ch <-chan struct{})
+//@   ensures [owner] ch == closingof(c)
 //@   modifies nothing
+//@ func chan.recv:ret:Client.Closing(ch int, v int)
+//@   ensures closingobs == old(closingobs)[clientof(ch) := old(closingobs[clientof(ch)]) + 1]
+//@   modifies closingobs
 //@ func (c *Client) Closed() (ch <-chan struct{})
 //@   modifies nothing
 //
@@ -103,9 +115,10 @@ package broker
 //@   ensures [retained-cleared] old(msg.Retain) && len(msg.Payload) == 0 ==> nemptied[m.retainedMessages][msg.Topic] == old(nemptied[m.retainedMessages][msg.Topic]) + 1 && tlast == old(tlast)
 //@   ensures [retained-untouched] !old(msg.Retain) ==> tlast == old(tlast) && nemptied == old(nemptied)
 //@   ensures [released] held == old(held)
-//@   modifies msg.Retain, any(topic.node.values), anymap(map[string]*topic.node), elemsof(iface), isnode, held, tlast, nemptied, lastfirst, nchansend, anystop, seen
-//@   loop 1 invariant [state] held == old(held)[m.globalMutex := 2] && !msg.Retain && msg.Topic == old(msg.Topic) && msg.Payload == old(msg.Payload) && msg.QOS == old(msg.QOS) && backend_ok(m)
-//@   loop 2 invariant [state] held == old(held)[m.globalMutex := 2] && !msg.Retain && msg.Topic == old(msg.Topic) && msg.Payload == old(msg.Payload) && msg.QOS == old(msg.QOS) && backend_ok(m)
+//@   ensures [no-giveup-for-publisher] closingobs[client] == old(closingobs[client])
+//@   modifies msg.Retain, any(topic.node.values), anymap(map[string]*topic.node), elemsof(iface), isnode, held, tlast, nemptied, lastfirst, nchansend, anystop, seen, closingobs
+//@   loop 1 invariant [state] closingobs[client] == old(closingobs[client]) && held == old(held)[m.globalMutex := 2] && !msg.Retain && msg.Topic == old(msg.Topic) && msg.Payload == old(msg.Payload) && msg.QOS == old(msg.QOS) && backend_ok(m)
+//@   loop 2 invariant [state] closingobs[client] == old(closingobs[client]) && held == old(held)[m.globalMutex := 2] && !msg.Retain && msg.Topic == old(msg.Topic) && msg.Payload == old(msg.Payload) && msg.QOS == old(msg.QOS) && backend_ok(m)
 //@ functype "func(s *broker.memorySession) chan *packet.Message" (s *memorySession) (ch chan *packet.Message)
 //@   requires [session] s != nil
 //@   ensures [queue] ch == s.temporaryQueue || ch == s.storedQueue
@@ -164,7 +177,7 @@ package broker
 //@   requires [backend] client != nil && own_session(client)
 //@   ensures [no-ack] ack == nil && err == nil
 //@   ensures [released] held == old(held)
-//@   modifies held, lastfirst, anystop, seen
+//@   modifies held, lastfirst, anystop, seen, closingobs
 //
 // Terminate (C13, C14): detaches the client from its session and from both
 // tables; never panics, also for a client whose Setup failed (no session).
